@@ -2,5 +2,6 @@
 use vstd::prelude::*;
 use std::ops::Add;
 macro_rules! debug { ($($t:tt)*) => { () } }
+macro_rules! json { ({ $k:ident : $v:expr }) => { json_object1($k, &$v) } }
 macro_rules! trace { ($($t:tt)*) => { () } }
 verus! {
